@@ -268,6 +268,23 @@ class Path:
             return zint(v.len) > 0 if not isinstance(v.len, int) else v.len > 0
         if isinstance(v, MList):
             return self.truth(v.seq)
+        from . import loops as _lp0
+        if isinstance(v, _lp0.SCat):
+            # a concatenation is non-empty iff some part is; a flat-map / filter part is non-empty only if its source is (how many items each
+            # iteration contributes is not known here: a fresh Boolean bounded by the source's non-emptiness)
+            conds = []
+            for p_ in v.parts:
+                if isinstance(p_, (list, tuple)) and not (isinstance(p_, tuple) and p_ and isinstance(p_[0], _lp0.SFlat)):
+                    conds.append(z3.BoolVal(bool(p_)))
+                elif isinstance(p_, SSeq):
+                    conds.append(zbool(self.truth(p_)))
+                else:
+                    src = p_[0].seq if isinstance(p_, tuple) else getattr(p_, "seq", None)
+                    b_ = z3.Bool(self._fresh_name("summary_nonempty"))
+                    if src is not None:
+                        self.assume(z3.Implies(b_, zbool(self.truth(self.to_seq(src)))))
+                    conds.append(b_)
+            return z3.Or(*conds) if conds else False
         if isinstance(v, SUnion):
             return z3.Or(*[z3.And(g, zbool(self.truth_nofork(x))) for g, x in v.alts])
         if isinstance(v, SObj):
